@@ -88,7 +88,15 @@ def _space(tier):
             {"engine": "crash", "shards": 4, "args": {"mode": "partition", "workloads": 120, "cuts": 300, "threads": 24}}]
 
 
+def _fuzz(tier):
+    if tier == "quick":
+        return [{"engine": "fuzzopen", "args": {"images": 6000, "threads": 12}}]
+    return [{"engine": "fuzzopen", "shards": 2, "args": {"images": 300000, "threads": 8}}]
+
+
 PLAN = {
+    "C17": {"level": "exploration", "engines": _fuzz, "min_nontrivial": 100,
+            "assumptions": ["images are generated randomly and structure-aware (forgeries with recomputed tokens/checksums), not coverage-guided; device sizes up to 128 blocks", "panics are detected with catch_unwind plus a process-wide panic hook (background threads), aborts and hangs by the parent process (60 s without progress)"]},
     "C05": {"level": "exploration", "engines": _space, "min_nontrivial": 100,
             "assumptions": ["the invariant is asserted only at quiescent points (flush acknowledged, caller threads paused); transient reservations mid-flight are legitimate and not asserted", "OutOfSpace caused by fragmentation on a >90 % full device is not a violation; the drain epilogue checks that an emptied device accepts the original fill again"] + CRASH_ASSUMPTIONS[:2]},
     "C09": {"level": "fault_enumeration", "engines": _fault, "min_nontrivial": 100,
